@@ -70,7 +70,9 @@ TNext ==
                reatt == IF e.op = "step" THEN {K(e.attempts[i]) : i \in 1..Len(e.attempts)} ELSE {}
                ended == {k \in prevConn : k.d = "OUTGOING" /\ (k \notin now \/ k \in reatt)}
                greetedNow == IF e.op = "hello" /\ e.key.d = "OUTGOING" /\ e.was_open THEN {K(e.key)} ELSE {}
-               failed == {k \in ended : k \notin hgreeted /\ k \notin greetedNow}
+               \* an attempt (a connect() on a new socket) that the node does not even record as a connection has ended without a greeting too
+               failedAtOnce == {k \in reatt : k \notin now}
+               failed == {k \in ended : k \notin hgreeted /\ k \notin greetedNow} \cup failedAtOnce
            IN /\ hk' = [k \in DOMAIN hk \cup failed \cup greetedNow |->
                           IF k \in greetedNow THEN 0 ELSE IF k \in failed THEN Get(hk, k, 0) + 1 ELSE hk[k]]
               /\ hgreeted' = ((hgreeted \cup greetedNow) \ ended) \cap now
